@@ -240,16 +240,40 @@ def rule_4(ctx):
         'ISERR': lambda c: not ctx.res.is_subclass(c, NA),
         'ISNA': lambda c: ctx.res.is_subclass(c, NA),
     }
+    def instance(c):
+        """An instance as the library builds it: errors carry the code of their class, values a payload of their kind."""
+        if c in errs:
+            cm_, code = ctx.res.class_attr(c, 'value')
+            try:
+                code = ctx.fold(code, cm_) if code is not None else '#ERR'
+            except Exception:
+                code = '#ERR'
+            return Rec(cls=c, value=code if isinstance(code, str) else '#ERR', info='witness', args=('witness',))
+        payload = {'Number': 1, 'Text': 'abc', 'Boolean': True, 'DateTime': 1, 'Blank': None}[c.split(':')[-1]]
+        return Rec(cls=c, value=payload)
+    codes = ctx.fold(ctx.mod('xlfunctions.xlerrors').assign('ERROR_CODES'), ctx.mod('xlfunctions.xlerrors'))
     for name, want in oracle.items():
         fn = im.func(name)
         p = func_params(fn)[0]
         for c in errs + value_classes:
-            it = Interp(ctx.a, im, {p: Rec(cls=c, value=1)}, isinstance_fn=isinst)
+            it = Interp(ctx.a, im, {p: instance(c)}, isinstance_fn=isinst, inline_pkg=True)
             out = it.run(fn.body)
             got = out.value if out.end == 'return' else f'<{out.end}>'
+            if isinstance(got, Rec) and 'value' in got.f:
+                got = got.f['value']
             w = want(c) if c in errs else False
             ctx.expect(got is w or got == w, fn, f'{name}({c.split(":")[-1]})',
                        f'{name} returns {got!r} for a {c.split(":")[-1]} value, expected {w}')
+        # a TEXT that merely spells an error code is no error
+        for code in codes:
+            it = Interp(ctx.a, im, {p: Rec(cls=XLT + 'Text', value=code)}, isinstance_fn=isinst, inline_pkg=True)
+            out = it.run(fn.body)
+            got = out.value if out.end == 'return' else f'<{out.end}>'
+            if isinstance(got, Rec) and 'value' in got.f:
+                got = got.f['value']
+            ctx.expect(got is False or got == False, fn, f'{name}(text spelled like the error code {code})',  # noqa: E712
+                       f'{name} returns {got!r} for the TEXT value "{code}": only error values are errors, a text cell that happens '
+                       'to read like an error code is a text (ISTEXT is TRUE for it)')
     na = im.func('NA')
     r = last_return(na)
     ok = r is not None and isinstance(r.value, ast.Call) and ctx.res.resolve(r.value.func, im) == NA
@@ -272,7 +296,7 @@ def rule_4(ctx):
         out = it.run(fn.body)
         ctx.expect(out.value == w, fn, f'ISBLANK({c.split(":")[-1]} {val!r})',
                    f'ISBLANK returns {out.value!r} for {c.split(":")[-1]}({val!r}), expected {w}')
-    ctx.floor(55, 'inspector x class lattice')
+    ctx.floor(76, 'inspector x class lattice')
 
 
 class _Sig(PyModel):
